@@ -32,7 +32,7 @@ REAL = ["bec2format.bf3file (parse_bf2_file, bf2_import, exec_bf2instrs, bf2_unp
         "annotations, pfid2_filter_to_str)", "bec2format.hwcids"]
 STUBS = ["medium: SimFS (text layer, CRLF)", "BF2 generator + ground truth + RefBF2 (sim/bf2gen.py)", "filter-expression "
          "evaluator (this file)"]
-PROBES = ["line-announces-more-than-it-carries", "runs-with-assertions-disabled", "crlf-untranslated", "unknown-tag-type", "whole-page-lost", "middle-page-lost", "page-crossing", "gap-before-last-line", "gap-at-first-line", "lost-last-line", "dup-line", "swap-lines",
+PROBES = ["section-without-own-instructions", "marker-with-empty-value", "line-announces-more-than-it-carries", "runs-with-assertions-disabled", "crlf-untranslated", "unknown-tag-type", "whole-page-lost", "middle-page-lost", "page-crossing", "gap-before-last-line", "gap-at-first-line", "lost-last-line", "dup-line", "swap-lines",
           "ignored-section", "no-marker", "blob-gap-rejected", "bf2compat-faulted", "memimage-helper", "filter-expression",
           "three-types-sorted", "crlf"]
 ASSUMPTIONS = ["hardware-id names used in comparisons are transcribed into sim/bf2gen.py"]
@@ -296,7 +296,11 @@ def run(case):
         # ---- what must happen ----
         expect_reject = None
         may_reject = False
-        if not spec["marker"]:
+        if any(s_.get("twin") for s_ in spec["sections"]):
+            out.probes["section-without-own-instructions"] += 1
+        if spec["marker"] == "":
+            out.probes["marker-with-empty-value"] += 1
+        if spec["marker"] is None:
             out.probes["no-marker"] += 1
             expect_reject = "no BF3-update marker"
         exp = [dict(c) for c in truth]
